@@ -229,6 +229,10 @@ func main() {
 		interp.UseInt = fs.Int
 		interp.MaxPaths = fs.MaxPaths
 		interp.Params = fs.Env
+		interp.SchedNondet, interp.PreemptMax = false, 0
+		if k, ok := fs.Env["SCHED_PREEMPT"]; ok {
+			interp.SchedNondet, interp.PreemptMax = true, int(k)
+		}
 		interp.Fixed = fs.Fixed
 		interp.StartPrefix = fs.Prefix
 		budget := time.Duration(fs.BudgetS) * time.Second
